@@ -1824,11 +1824,11 @@ def kf_cleanup_pred(text, runner, files):
                 continue
             for u in us:
                 if isinstance(u, SymbolDefinition) and u.name not in defs:
-                    defs[u.name] = (PHASE_ORDER[ph], el.source.first_line.number, [r.name for r in u.references])
+                    defs[u.name] = (PHASE_ORDER[ph], el.source.first_line_number, [r.name for r in u.references])
     refs, cleanup_lines = set(), set()
     for el in doc.cleanup_phase.elements:
         for k in range(len(el.source.lines)):
-            cleanup_lines.add(el.source.first_line.number + k)
+            cleanup_lines.add(el.source.first_line_number + k)
         if el.instruction_info is None:
             continue
         try:
@@ -1892,8 +1892,8 @@ CORPUS_CASES = [
      "[setup]\nstdin = -contents-of -rel-home in.txt -transformed-by replace a '\\6'\n[act]\n$ cat\n[assert]\nexit-code == 0\n", None),
     ('A10 symbol defined after a failing assertion, used in cleanup (KF-C18-2)',
      '[act]\n$ true\n[assert]\nexit-code == 1\ndef string X = a\n[cleanup]\n$ echo @[X]@\n', KF_CLEANUP),
-    ('A10b the same through a second symbol, definition in before-assert after a failing shell command',
-     '[before-assert]\n$ exit 1\ndef string X = a\n[cleanup]\nfile f.txt = @[X]@\n', KF_CLEANUP),
+    ('A10b the same through a second symbol',
+     '[assert]\nexit-code == 1\ndef string X = a\ndef string Y = @[X]@\n[cleanup]\nfile f.txt = @[Y]@\n', KF_CLEANUP),
     ('N1 exit() in an integer expression (KF-C18-3)', '[assert]\nexit-code == exit()\n', KF_EXIT),
     ('N1b quit(3)', '[assert]\nexit-code == "quit(3)"\n', KF_EXIT),
     ('N2 integer with more than 4300 digits in a failure message (KF-C18-4)', '[assert]\nexit-code == 10**5000\n', KF_BIGINT),
